@@ -72,6 +72,16 @@ def roundtrip(part, term, comb, value, ctx, sure, keyhint):
         return
     if t2 != text or S.canon_deep(term, v2) != b:
         part.violation("%s:public-helpers-differ" % keyhint, case, {"text": t2})
+    # ... and through the URL-level entry points (falsy problems such as 0 or [] are problems too)
+    try:
+        url = ps.serialize_problem_as_url(comb, "demo", ctx["height"], ctx["width"], value)
+        v3 = ps.deserialize_problem_as_url(comb, url)
+        v4 = ps.deserialize_problem_as_url(comb, url, allowed_puzzles=["demo"], return_size=True)
+    except Exception as e:
+        part.violation("%s:url-helpers-raise-%s" % (keyhint, type(e).__name__), case, {"exception": repr(e)[:200]})
+        return
+    if v3 is None or S.canon_deep(term, v3) != b or not isinstance(v4, tuple) or len(v4) != 3 or v4[0] != ctx["height"] or v4[1] != ctx["width"] or S.canon_deep(term, v4[2]) != b:
+        part.violation("%s:url-helpers-differ" % keyhint, case, {"url": url, "decoded": repr(v3)[:100], "with_size": repr(v4)[:100]})
     part.add("nontrivial", (term.name, repr(value), ctx["height"], ctx["width"]))
 
 
@@ -155,6 +165,57 @@ def run_histories(part, term, depth):
             if len(part.violations) > before:
                 part.violations[-1].case["history"] = [list(b) for b in seq]
     part.add("terms", "history:" + term.name)
+
+
+def run_inplace(part):
+    """One ValuedRooms / Rooms instance, ONE rooms list object: serialize, then reorder that very list (and its rooms) in
+    place - values following their rooms - and serialize again; every text must decode to the problem as it is at that
+    moment.  (A caller that keeps its partition in one list and edits it is the normal use of a generator.)"""
+    ps = S.ps()
+    hexdot = S.TOneOf(S.TDict([-1], ["."]), S.THexInt())
+    for (h, w) in ((1, 3), (2, 2), (2, 3), (3, 2), (2, 4), (3, 3)):
+        from mc import graphref
+
+        edges = graphref.grid_edges(h, w)
+        for pidx, p in enumerate(graphref.connected_partitions(h * w, edges)):
+            if len(p) < 2 or pidx % 3:
+                continue
+            for term in (S.TValuedRooms(hexdot), S.TValuedRooms(S.THexInt()), S.TRooms()):
+                comb = term.build()
+                rooms = [[divmod(c, w) for c in blk] for blk in p]
+                vals = [k + 1 for k in range(len(rooms))]
+                valued = isinstance(term, S.TValuedRooms)
+                steps = ["as-is", "reverse", "rotate", "swap-first-two", "reverse-cells", "sort"]
+                for step in steps:
+                    if step == "reverse":
+                        rooms.reverse(); vals.reverse()
+                    elif step == "rotate":
+                        rooms.append(rooms.pop(0)); vals.append(vals.pop(0))
+                    elif step == "swap-first-two":
+                        rooms[0], rooms[1] = rooms[1], rooms[0]; vals[0], vals[1] = vals[1], vals[0]
+                    elif step == "reverse-cells":
+                        for r in rooms:
+                            r.reverse()
+                    elif step == "sort":
+                        order = sorted(range(len(rooms)), key=lambda k: sorted(rooms[k]))
+                        rooms[:] = [rooms[k] for k in order]; vals[:] = [vals[k] for k in order]
+                    value = (rooms, vals) if valued else rooms
+                    part.count("evaluations")
+                    case = {"term": term.name, "height": h, "width": w, "value": [[list(c) for c in r] for r in rooms], "values": list(vals), "inplace_step": step}
+                    try:
+                        text = ps.serialize_problem(comb, value, height=h, width=w)
+                        back = ps.deserialize_problem(comb, text, height=h, width=w)
+                    except Exception as e:
+                        part.violation("%s{in-place}:raises-%s" % (keyhint(term), type(e).__name__), case, {"exception": repr(e)[:200]})
+                        break
+                    want = sorted(zip([sorted(map(tuple, r)) for r in rooms], vals)) if valued else sorted(sorted(map(tuple, r)) for r in rooms)
+                    got = None
+                    if back is not None:
+                        got = sorted(zip([sorted(map(tuple, r)) for r in back[0]], back[1])) if valued else sorted(sorted(map(tuple, r)) for r in back)
+                    if got != want:
+                        part.violation("%s{in-place}:value-differs" % keyhint(term), case, {"text": text, "decoded": repr(back)[:200]})
+                        break
+    part.add("terms", "in-place")
 
 
 def run_runs(part, space_term, number_term, order):
@@ -287,6 +348,8 @@ def worker(shard, part):
                                                      "tupl_cap": 300 if tier == "quick" else 1200})
         if lo % 200 == 0:
             part.sample({"term": _TERMS[lo].name})
+    elif what == "inplace":
+        run_inplace(part)
     elif what == "history":
         _, idx, depth = shard
         run_histories(part, history_terms()[idx], depth)
@@ -317,6 +380,7 @@ def main(tier, seed, only=None):
                 shards.append(("runs", si, ni, order))
     for idx in range(len(history_terms())):
         shards.append(("history", idx, 2 if tier == "quick" else 3))
+    shards.append(("inplace",))
     if only:
         shards = [s for s in shards if s[0] == only]
     run = harness.Run(
@@ -327,7 +391,7 @@ def main(tier, seed, only=None):
         "value combinators, Tupl with Rooms.  Values: all sequences over each alphabet while <= cap else a boundary family; boundary values "
         "0,15,16,255,256,4095; blank runs of every length 1..2*max+1 on 1xN / Nx1 boards; every partition of every board with <= %d cells into "
         "connected rooms in every order of rooms and cells (<= %d cells) or canonical/reversed/rotated.  Histories: for 8 board-sized terms (Rooms, ValuedRooms, Grid, Tupl of them) ONE combinator instance serves every ordered pair (thorough: triple) of "
-        "boards from an 11-board menu with repeated areas, and the last round trip is judged.  A term is admitted iff OneOf alternatives "
+        "boards from an 11-board menu with repeated areas, and the last round trip is judged; one instance and ONE rooms list object reordered in place between serializations (reverse, rotate, swap, cell order, sort).  Every accepted value also goes through serialize_problem_as_url / deserialize_problem_as_url (with and without return_size).  A term is admitted iff OneOf alternatives "
         "have disjoint FIRST sets and no greedy decimal reader is followed by a digit.  Oracle: decode(encode(v)) == v (rooms up to canonical "
         "order) and consumed == len(text)." % (6 if tier == "quick" else 9, 4 if tier == "quick" else 5),
     )
@@ -342,6 +406,10 @@ def main(tier, seed, only=None):
 
 def replay(case):
     part = harness.Partial()
+    if "inplace_step" in case:
+        run_inplace(part)
+        mine = [x for x in part.violations if x.case.get("term") == case["term"] and x.case.get("value") == case["value"] and x.case.get("inplace_step") == case["inplace_step"]]
+        return (not mine), (mine[0].detail if mine else "round-trips")
     prepare("thorough")
     cands = [t for t in _TERMS if t.name == case["term"]]
     ctx = {"height": case["height"], "width": case["width"]}
